@@ -83,7 +83,7 @@ def main() -> int:
         if args.tier == "thorough":
             from sa import selftest
 
-            summary = selftest.run(prop, seed)
+            summary = selftest.run(prop, seed, [f.ident() for f in ctx.findings()])
             extra["self_validation"] = summary
             if summary["missed"] or summary["false_alarms"]:
                 selftest_problem = (
